@@ -40,7 +40,7 @@ MANIFEST = dict(
              dict(name="E-deftree", path="harness/src/eng_deftree.rs + coq/extract/eng_deftree.ml",
                   kind_free_text="two-phase differential: real lexer+parser+ProjectManager (one-file temp workspace) go-to-definition and completion at the start / middle / end of every identifier token vs the extracted DefTree.definition / DefTree.completion on the dumped tree; parts needing another document are classified Outside by the model and skipped (counted); C10_tree_* / C11_tree_* tie these answers to the abstract model on entity_of_tree"),
              dict(name="E-wstree", path="harness/src/eng_wstree.rs + coq/extract/eng_wstree.ml",
-                  kind_free_text="two-phase differential on WORKSPACES of files: real lexer+parser on every file (trees dumped), per file a fresh ProjectManager on the temp workspace answering go-to-definition and completion at the start / middle / end of every identifier token vs the extracted WsTree.wdefinition / WsTree.wcompletion on the dumped trees (parent linking through the class index with the cycle guard, definitions-only tables of ancestors, the `uses` loop, target = file stem + selection range); only the typing of operands before a dot is left Outside; C10_ws_* / C11_ws_* tie these answers to the abstract model on map entity_of_tree ws"),
+                  kind_free_text="two-phase differential on WORKSPACES of files: real lexer+parser on every file (trees dumped), per file a fresh ProjectManager on the temp workspace answering go-to-definition and completion at the start / middle / end of every identifier token vs the extracted WsTree.wdefinition / WsTree.wcompletion on the dumped trees (parent linking through the class index with the cycle guard, definitions-only tables of ancestors, the `uses` loop, target = file stem + selection range; operands before a dot: self / own name / another indexed entity / a variable, parameter or field of native, indexed-class, refto or listof type); dotted chains, calls, aliases and unknown type names before a dot are left Outside; C10_ws_* / C11_ws_* tie these answers to the abstract model on map entity_of_tree ws"),
              dict(name="E-annot", path="harness/src/eng_annot.rs + coq/extract/eng_annot.ml",
                   kind_free_text="two-phase differential: real lexer+parser+AstAnnotator (full and definitions-only mode; root table and every method node's table: for_class_or_module, symbols in iter_symbols order with id / SymbolType / selection_range / range, uses) vs the extracted Coq model Annot.annotate on the dumped tree; C10_tables_from_tree* tie these tables to Scoping.root_table / method_table")],
 )
@@ -941,7 +941,7 @@ def wstree_stage(ctx):
                    "workspace answers go-to-definition and completion at the start, middle and end of EVERY identifier token of that "
                    "file; compared with WsTree.wdefinition / WsTree.wcompletion on the dumped trees (links = target file stem, "
                    "selection range, range in the order returned; labels in the order returned). Parts the model classifies Outside "
-                   "(the eval type of the operand before a dot is needed; a used entity on a parent cycle) are skipped and counted. "
+                   "(the operand before a dot is a dotted chain, a call, or has an alias / unknown declared type; a used entity on a parent cycle) are skipped and counted. "
                    "Oracle (implementation alone): each link's selection range sliced from the TARGET file's text is the identifier "
                    "under the cursor ignoring case (`self`, options of `refTo [..]` excepted), labels pairwise distinct ignoring "
                    "case, no error, no panic, no hang")
